@@ -46,6 +46,10 @@ func (s Setting) pkgMTime() time.Time {
 		return PkgMTime.Add(500 * time.Millisecond)
 	case "Y1960", "Y1970", "Y2040", "Y2110":
 		return fixture.TimeOf["epochs/y"+s.MTime[1:]+".txt"]
+	case "Y1969TZ": // half an hour before the epoch, written with a zone offset that puts its wall clock after it
+		return time.Date(1970, 1, 1, 0, 30, 0, 0, time.FixedZone("", 3600))
+	case "Y2106TZ": // after 2^32 seconds, its wall clock (zone -12h) before
+		return time.Date(2106, 2, 7, 0, 0, 0, 0, time.FixedZone("", -12*3600))
 	}
 	return PkgMTime
 }
@@ -372,6 +376,14 @@ func init() {
 					}
 				}
 			}
+			for _, y := range []string{"Y1969TZ", "Y2106TZ"} {
+				st := Setting{Name: "mtime=" + y, MTime: y}
+				for _, l := range [][]model.Entry{{{Src: "etc/app.conf", Dst: "/etc/app.conf", Type: "config"}, {Dst: "/var/lib/app", Type: "dir"}}, {{Src: "etc/app.conf", Dst: "/etc/app.conf", MTime: st.pkgMTime()}}} {
+					if !yield(C01Case{Setting: st, List: l, MayFail: true}) {
+						return
+					}
+				}
+			}
 			// file sizes on block, buffer and streaming-threshold boundaries, under every setting (compressors included)
 			for _, s := range sets {
 				var l []model.Entry
@@ -440,6 +452,12 @@ func init() {
 				{Src: "link", Dst: "/etc/disklink.conf", Type: "config", Owner: "app", Group: "grp"},
 				{Src: "links/plain", Dst: "/opt/plainlink-owned", Owner: "app", MTime: EntryMTime},
 				{Src: "links/{dot,plain}", Dst: "/opt/linkglob-owned", Owner: "app", Group: "grp", MTime: EntryMTime},
+				// directories declared at paths that distributions' base packages own (declared is declared)
+				{Dst: "/var/log", Type: "dir", Mode: 0o750, Owner: "app", Group: "grp"},
+				{Dst: "/etc", Type: "dir"},
+				{Dst: "/usr/share", Type: "dir", Mode: 0o755},
+				{Dst: "/usr/lib/.build-id", Type: "dir"},
+				{Dst: "/etc/logrotate.d", Type: "dir", Owner: "app"},
 				// names that are not plain text, picked up from disk
 				{Src: "oddnames", Dst: "/opt/odd-tree", Type: "tree"},
 				{Src: "oddnames/", Dst: "/opt/odd-dir"},
